@@ -57,7 +57,7 @@ def c15(tier):
 
 
 # ------------------------------------------------------------------------------------------------
-def run_netlike(pid, tier, level, harness, cfgs, rule, assumptions, extra_args=(), mc=False, deadline_s=None):
+def run_netlike(pid, tier, level, harness, cfgs, rule, assumptions, extra_args=(), mc=False, deadline_s=None, per_cfg_args=None):
     """Shared driver for the E2 harnesses: runs harness in each cfg, merges counters, writes evidence."""
     out = Outcome(pid, tier, level)
     tot = {}
@@ -67,7 +67,7 @@ def run_netlike(pid, tier, level, harness, cfgs, rule, assumptions, extra_args=(
     per_cfg = {}
     for cfg in cfgs:
         exe = prep(cfg, harness)
-        args = ["--tier", tier, "--jobs", vbuild.JOBS] + list(extra_args)
+        args = ["--tier", tier, "--jobs", vbuild.JOBS] + list(extra_args) + list((per_cfg_args or {}).get(cfg, []))
         if deadline_s:
             args += ["--deadline_s", int(deadline_s / len(cfgs))]
         r = run_harness(exe, args, tmpfile(pid.lower()))
@@ -80,7 +80,7 @@ def run_netlike(pid, tier, level, harness, cfgs, rule, assumptions, extra_args=(
             samples = r["samples"]
         exhaustive = exhaustive and r["exhaustive"]
         per_cfg[cfg] = {"counters": r["counters"], "distinct": r["distinct"], "exhaustive": r["exhaustive"],
-                        "wall_ms": r.get("wall_ms")}
+                        "wall_ms": r.get("wall_ms"), "depth": r.get("depth")}
     out.assumptions = assumptions
     return out, tot, distinct, samples, exhaustive, per_cfg
 
@@ -110,15 +110,80 @@ def c13(tier):
     return out.finish()
 
 
+NETMC_RULES = {
+    "C07": "networks: every subset of <=2 (thorough: <=3) clauses from the 20 non-tautological 2/3-literal clauses over 3 variables; "
+           "1 boolean + 4 LRA atoms over 2 reals, 1 boolean + 4 IDL (and RDL) atoms on a 3-cycle with a repeated pair, each with every "
+           "<=1 (thorough: <=2) binary clause over the 5 literals. Histories: ALL sequences up to the depth over assume(l) for every "
+           "undefined literal, pop, next, propagate, check({l1,l2}), root new_clause+propagate from a 3-clause pool, simplify_db. "
+           "Oracle after every history: reference model set M = truth table(clauses) x theory feasibility (Fourier-Motzkin / "
+           "Floyd-Warshall) x no-goods of next(): every reported value is entailed by M and the standing decisions; every clause in "
+           "the database and every level-0 assignment is entailed by M; a call answers false only if M (with decisions / check "
+           "assumptions) is empty; a refused decision means M+decisions+p is empty; a complete assignment is in M; every theory "
+           "conflict/lemma is theory-valid.",
+    "C08": "networks built so that one quantity changes several times across levels (LRA: x<=5,x<=3,x<=1,x>=0,x+y<=4,y>=2; IDL and RDL: "
+           "three constraints on one ordered pair + a 3-cycle; OV: three variables with overlapping domains and two equalities; one "
+           "mixed LRA+IDL+boolean network with linking clauses). Histories: ALL sequences of assume/pop/next up to the depth. Oracle "
+           "(differential, no expected values): after every history the literals currently true are asserted in trail order on a FRESH "
+           "copy of the network and all arithmetic bounds, distances and object domains must coincide; plus the C07 entailment oracle "
+           "(so that at root level only root consequences remain).",
+    "C09": "networks: ALL 3-subsets of the atom pool {x,y,x+y,x-y (thorough: 2x-y,x+2y)} x {<=,<,>=,>} x {0,1 (thorough: -1,1/2)}; "
+           "histories: ALL sequences of assume(+-atom), pop, next up to the depth. Oracle: Fourier-Motzkin on the asserted atoms "
+           "(negation = complementary strict/non-strict relation): a standing set is feasible; reported values satisfy every asserted "
+           "constraint in (rational,eps) arithmetic; every tableau row holds on the values; lb<=value<=ub; bounds contain the exact "
+           "projection of the solution set; every theory conflict and lemma is valid; refused decisions are infeasible (C07 oracle).",
+    "C10": "for IDL and RDL (matrix starts at size 2, so growth is exercised): ALL 3-subsets of {to-from<=d} over 4 points (origin "
+           "included) with d in {-1,0,1} (thorough: -2..2 and half-integers for RDL) that touch <=3 points; histories: ALL sequences "
+           "of assume(+-atom), pop, next up to the depth. Oracle: Floyd-Warshall closure of the asserted literals (false literal = "
+           "reverse edge -d-1 resp. -d-eps): no standing negative cycle; every matrix entry equals the closure exactly; every "
+           "undecided atom decided by the closure has been propagated; every conflict/lemma negates to a negative cycle; nothing "
+           "else is inferred (C07 oracle).",
+    "C14": "value universe of 3 (thorough: 4) values; two variables with EVERY pair of non-empty domains, equality requested once or "
+           "twice (both argument orders); histories: ALL sequences of assume/pop/next/propagate over value and equality literals up to "
+           "the depth. Oracle: truth table of the database after construction (exactly one value per variable in every model, every "
+           "allowed value possible, equality literal <=> same value); along histories value(v) = values whose literal is not false, "
+           "and the C07 entailment oracle.",
+}
+
+
+def netmc_check(pid, tier):
+    cfgs = ["rel", "dbgn"]
+    out, tot, distinct, samples, exhaustive, per_cfg = run_netlike(
+        pid, tier, "model_checking", "netmc", cfgs, None,
+        ["reference models (engine/tt.h truth tables, engine/fm.h Fourier-Motzkin and Floyd-Warshall, engine/refq.h) are correct",
+         "iteration order of pointer-keyed containers is fixed per history by the deterministic allocator (engine/arena.h)",
+         "small scope: nothing is claimed beyond the stated networks and depth"],
+        extra_args=["--prop", pid], deadline_s=None if tier == "quick" else DEADLINE_S,
+        # quick: the assertion-enabled build explores one level less (it is 2-3x slower); thorough: same depth
+        per_cfg_args={"dbgn": ["--depth_delta", "-1"]} if tier == "quick" else None)
+    out.coverage = {
+        "states": distinct.get("states", 0),
+        "transitions": tot.get("histories", 0),
+        "traces_validated_against_impl": tot.get("histories", 0),
+        "samples": samples,
+        "explanation": "stateless exploration of the real sat_core/theories: a state is the history that reaches it, replayed on a "
+                       "fresh network; states = distinct canonical end states (assignment, level, bounds/distances/domains, clause "
+                       "set); transitions = histories executed (each is one new last step); there is no separate model, so every "
+                       "trace runs on the implementation. " + NETMC_RULES[pid],
+        "networks": tot.get("networks", 0), "steps_executed": tot.get("steps", 0), "exhaustive": exhaustive,
+        "depth": per_cfg[cfgs[0]].get("depth"), "configurations": per_cfg,
+    }
+    for k in ("undo_compared", "undo_reference_propagated_more", "undo_reference_rejected"):
+        if k in tot:
+            out.coverage[k] = tot[k]
+    return out.finish()
+
+
 # ------------------------------------------------------------------------------------------------
 PROPS = {"C15": c15, "C13": c13}
+for _p in ("C07", "C08", "C09", "C10", "C14"):
+    PROPS[_p] = (lambda pid: (lambda tier: netmc_check(pid, tier)))(_p)
 
 
 def setup():
     t0 = time.time()
     for cfg in ["rel", "dbgn", "dbg"]:
         vbuild.ensure_tree(cfg, quiet=False)
-    for cfg, h in [("rel", "arith_enum"), ("dbgn", "arith_enum"), ("dbg", "arith_enum"), ("rel", "reify"), ("dbgn", "reify")]:
+    for cfg, h in [("rel", "arith_enum"), ("dbgn", "arith_enum"), ("dbg", "arith_enum"), ("rel", "reify"), ("dbgn", "reify"), ("rel", "netmc"), ("dbgn", "netmc")]:
         vbuild.ensure_harness(cfg, h, quiet=False)
     print("setup done in %.0fs" % (time.time() - t0))
     return 0
